@@ -26,7 +26,7 @@ def pFix (s : String) : Option Fix :=
 def pRetK (s : String) : Option RetK :=
   match s with
   | "fut" => some .fut | "ok" => some .ok | "already" => some .errAlready | "dial" => some .errDial
-  | "notconnected" => some .errNotConnected | "err" => some .err | _ => none
+  | "notconnected" => some .errNotConnected | "err" => some .err | "exhausted" => some .errExhausted | _ => none
 
 def pRes (toks : List String) : Option FRes :=
   match toks with
